@@ -43,7 +43,7 @@ class Builtin:
 
 GLOBAL_NAMES = {n: Builtin(n) for n in (
     'len', 'min', 'max', 'int', 'float', 'abs', 'range', 'prange', 'sqrt', 'bool', 'tuple', 'list', 'enumerate',
-    'isinstance', 'any', 'all', 'sorted', 'set', 'zip', 'sum')}
+    'isinstance', 'any', 'all', 'sorted', 'set', 'zip', 'sum', 'type', 'slice', 'memoryview', 'ValueError', 'TypeError', 'IndexError')}
 GLOBAL_NAMES['True'] = SBool(True)
 GLOBAL_NAMES['False'] = SBool(False)
 
@@ -82,7 +82,11 @@ def get_attribute(eng, s, fr, obj, attr, lineno):
     if isinstance(obj, SRecord):
         if attr in obj.fields:
             return obj.fields[attr]
-        # a property / method under contract on the record's class
+        if ('m:' + attr) in obj.fields:
+            return BoundMethod(obj, attr)
+        if attr == '__class__':
+            return ClassRef(obj.cls)
+        # a property / method under contract on the record's class (walks the class hierarchy of the repo)
         c = eng.reg.lookup(attr, cls=obj.cls)
         if c is not None:
             if 'property' in c.flags:
@@ -98,6 +102,12 @@ class BoundMethod:
     def __init__(self, obj, name):
         self.obj = obj
         self.name = name
+
+
+class ClassRef:
+    """a class object (self.__class__ / slice / a geometry array class): calling it constructs a record"""
+    def __init__(self, cls):
+        self.cls = cls
 
 
 # ---------------------------------------------------------------------- calls
@@ -308,6 +318,14 @@ def call_builtin(eng, s, fr, name, args, kwargs, lineno, node):
         return np_array(eng, s, fr, args, kwargs, lineno)
     if name == 'np.nonzero':
         return STuple([np_nonzero(eng, s, fr, args[0], lineno)])
+    if name == 'memoryview':
+        return args[0]
+    if name == 'np.repeat':
+        a, k = args[0], to_int(args[1])
+        if not isinstance(a, SArr) or a.ndim != 1 or not k.concrete or k.v < 1:
+            raise Unsupported("np.repeat form")
+        snap = _Snap(dict(s.heap))
+        return new_lambda_array(s, a.elem, a.base.dtype, a.length() * k.v, lambda j: cell(snap, a, j // k.v), 'repeat')
     if name == 'np.atleast_2d':
         v = args[0]
         if isinstance(v, SArr) and v.ndim == 2:
@@ -321,9 +339,38 @@ def call_builtin(eng, s, fr, name, args, kwargs, lineno, node):
         return np_sort(eng, s, fr, args[0], lineno)
     if name in ('np.min', 'np.max'):
         return reduce_minmax(eng, s, fr, args[0], name[3:], lineno)
+    if name == 'type' and len(args) == 1:
+        return SStr('type:' + type_name(args[0]))
+    if name == 'slice':
+        a = list(args) + [NONE] * (3 - len(args))
+        if len(args) == 1:
+            a = [NONE, args[0], NONE]
+        return SRecord('slice', {'start': a[0], 'stop': a[1], 'step': a[2]})
     if name == 'isinstance':
-        raise Unsupported("isinstance")
+        obj, cls = args
+        names = [c for c in (cls.items if isinstance(cls, STuple) else [cls])]
+        tn = type_name(obj)
+        from . import extract
+        anc = set(extract.mro(tn)) | {tn}
+        return SBool(any(class_name(c) in anc for c in names))
     raise Unsupported(f"builtin {name} at line {lineno}")
+
+
+def type_name(v):
+    if isinstance(v, SRecord):
+        return v.cls
+    return {SInt: 'int', SFloat: 'float', SBool: 'bool', SNone: 'NoneType', STuple: 'tuple', SList: 'list',
+            SStr: 'str', SArr: 'ndarray'}.get(type(v), type(v).__name__)
+
+
+def class_name(c):
+    if isinstance(c, ClassRef):
+        return c.cls
+    if isinstance(c, Builtin):
+        return c.name.split('.')[-1]
+    if isinstance(c, SFunc):
+        return c.name
+    raise Unsupported(f"class reference {c}")
 
 
 def seq_len(s, v):
@@ -333,6 +380,8 @@ def seq_len(s, v):
         return SInt(len(s.lists[v.lid]))
     if isinstance(v, STuple):
         return SInt(len(v))
+    if isinstance(v, SRecord) and 'length' in v.fields:
+        return v.fields['length']
     raise Unsupported(f"len of {type(v).__name__}")
 
 
@@ -351,6 +400,8 @@ def float_to_int(v):
 def call_method(eng, s, fr, bm, args, kwargs, lineno, node):
     obj, name = bm.obj, bm.name
     if isinstance(obj, SRecord):
+        if ('m:' + name) in obj.fields:
+            return obj.fields['m:' + name](eng, s, fr, obj, args, kwargs, lineno)
         c = eng.reg.lookup(name, cls=obj.cls)
         if c is None:
             raise Unsupported(f"method {obj.cls}.{name}")
@@ -390,7 +441,11 @@ def call_method(eng, s, fr, bm, args, kwargs, lineno, node):
         if name in ('min', 'max'):
             return reduce_minmax(eng, s, fr, obj, name, lineno)
         if name == 'view':
-            raise Unsupported("array.view")
+            # reinterpretation of a buffer as cells of a dtype: the model's buffers are typed already
+            dt = _dtype_of(args[0])
+            if dt.elem != obj.elem:
+                raise Unsupported(f"view of {obj.base.dtype} buffer as {dt.name}")
+            return obj
     raise Unsupported(f"method {name} on {type(obj).__name__}")
 
 
@@ -809,6 +864,14 @@ def np_nonzero(eng, s, fr, arr, lineno):
 def np_concatenate(eng, s, fr, seq, lineno):
     snap = _Snap(dict(s.heap))   # operands are read as they are NOW (numpy evaluates eagerly)
     items = list(s.lists[seq.lid]) if isinstance(seq, SList) else list(seq.items)
+    for k, x in enumerate(items):
+        if isinstance(x, (SList, STuple)):       # a python sequence operand: np converts it to an array
+            vals = list(s.lists[x.lid]) if isinstance(x, SList) else list(x.items)
+            elem = 'bool' if all(isinstance(v, SBool) for v in vals) else ('float' if any(isinstance(v, SFloat) for v in vals) else 'int')
+            a = st.new_conc_array(s, elem, {'bool': 'bool', 'float': 'float64', 'int': 'int64'}[elem], [len(vals)], None)
+            s.heap[a.base.id] = tuple(_coerce(elem, v) for v in vals)
+            items[k] = a
+    snap = _Snap(dict(s.heap))
     if not all(isinstance(x, SArr) and x.ndim == 1 for x in items):
         raise Unsupported("concatenate of non-1-d arrays")
     total = SInt(0)
